@@ -41,6 +41,21 @@ CMP_TXT = {ast.Gt: ">", ast.GtE: ">=", ast.Lt: "<", ast.LtE: "<=", ast.Eq: "==",
            ast.NotIn: "not in"}
 
 
+def _name_class(x):
+    """identifier substitution is tried between names of one kind only"""
+    import re
+    if re.search(r"(_id|^side|^name|^npid|^mood|^phase|^body|^appid|^mtype)$", x):
+        return "id"
+    if re.search(r"(^now|^when|^server_rx|^old|time|^started|_at$|^since|^cutoff|^total|"
+                 r"^waiting|^added|^updated)", x):
+        return "time"
+    if re.search(r"(^row|row$|^r$|^sr$|rows$|^sides$|^side_rows$)", x):
+        return "row"
+    if re.search(r"(^db$|_db$|^dbfile$|^fn$|path$|^f$|file$)", x):
+        return "handle"
+    return None
+
+
 def seg(lines, node):
     """(start offset, end offset) of node in the joined text"""
     starts = [0]
@@ -231,6 +246,104 @@ def generate():
                             ya, yb = seg(lines, y)
                             add("swapstmt", x, xa, yb,
                                 text[ya:yb] + text[xb:ya] + text[xa:xb])
+        # ---- campaign 5: identifier / attribute / constant substitution, guard and
+        # exit-statement removal (selected with MC_OPS)
+        import re as _re5
+        for fnode in ast.walk(tree):
+            if not isinstance(fnode, (ast.FunctionDef, ast.AsyncFunctionDef)):
+                continue
+            own = [n for n in ast.walk(fnode)]
+            # names bound in the function (parameters and assigned locals)
+            bound = []
+            for a_ in fnode.args.args + fnode.args.kwonlyargs:
+                if a_.arg not in ("self", "cls"):
+                    bound.append(a_.arg)
+            for n in own:
+                if isinstance(n, ast.Name) and isinstance(n.ctx, ast.Store) and \
+                        n.id not in bound:
+                    bound.append(n.id)
+            attrs = []
+            for n in own:
+                if isinstance(n, ast.Attribute) and isinstance(n.value, ast.Name) and \
+                        n.value.id == "self" and n.attr.startswith("_") and \
+                        not isinstance(parents.get(n), ast.Call) and n.attr not in attrs:
+                    attrs.append(n.attr)
+            strs = []
+            for n in own:
+                if isinstance(n, ast.Constant) and isinstance(n.value, str) and \
+                        _re5.fullmatch(r"[a-z_]{2,20}", n.value) and not in_log(n) and \
+                        n.value not in strs:
+                    strs.append(n.value)
+            for n in own:
+                if in_log(n):
+                    continue
+                if isinstance(n, ast.Name) and isinstance(n.ctx, ast.Load) and n.id in bound:
+                    a, b = seg(lines, n)
+                    for other in bound:
+                        if other != n.id and _name_class(other) is not None and \
+                                _name_class(other) == _name_class(n.id):
+                            add("namesub", n, a, b, other, "in %s" % fnode.name)
+                if isinstance(n, ast.Attribute) and isinstance(n.ctx, ast.Load) and \
+                        isinstance(n.value, ast.Name) and n.value.id == "self" and \
+                        n.attr in attrs and not (isinstance(parents.get(n), ast.Call) and
+                                                 parents[n].func is n):
+                    a, b = seg(lines, n)
+                    for other in attrs:
+                        if other != n.attr:
+                            add("attrsub", n, a, b, "self." + other, "in %s" % fnode.name)
+                if isinstance(n, ast.Constant) and isinstance(n.value, str) and \
+                        n.value in strs:
+                    a, b = seg(lines, n)
+                    for other in strs:
+                        if other != n.value:
+                            add("strsub", n, a, b, repr(other), "in %s" % fnode.name)
+                if isinstance(n, ast.If) and not n.orelse:
+                    # the guard removed: body runs unconditionally
+                    a, b = seg(lines, n.test)
+                    add("guardtrue", n, a, b, "True")
+                    add("guardfalse", n, a, b, "False")
+                if isinstance(n, (ast.Return, ast.Raise, ast.Continue, ast.Break)) and \
+                        isinstance(parents.get(n), (ast.If, ast.For, ast.While, ast.Try,
+                                                    ast.ExceptHandler, ast.With)):
+                    a, b = seg(lines, n)
+                    add("rmexit", n, a, b, "pass")
+                if isinstance(n, ast.Subscript) and isinstance(n.slice, ast.Constant) and \
+                        isinstance(n.slice.value, int) and not isinstance(n.slice.value, bool):
+                    a, b = seg(lines, n.slice)
+                    for v in (0, 1, -1):
+                        if v != n.slice.value:
+                            add("idx", n, a, b, str(v))
+                if isinstance(n, ast.Call) and isinstance(n.func, ast.Name) and \
+                        n.func.id in ("min", "max"):
+                    a, b = seg(lines, n.func)
+                    add("minmax", n, a, b, "max" if n.func.id == "min" else "min")
+                if isinstance(n, ast.BinOp) and isinstance(n.op, (ast.Add, ast.Sub)):
+                    la = seg(lines, n.left)[1]
+                    rb = seg(lines, n.right)[0]
+                    mid = text[la:rb]
+                    if isinstance(n.op, ast.Sub) and "-" in mid:
+                        add("arith", n, la, rb, mid.replace("-", "+", 1))
+                        xa, xb = seg(lines, n.left)
+                        ya, yb = seg(lines, n.right)
+                        add("arith", n, xa, yb, text[ya:yb] + text[xb:ya] + text[xa:xb],
+                            "operands swapped")
+                    if isinstance(n.op, ast.Add) and "+" in mid:
+                        add("arith", n, la, rb, mid.replace("+", "-", 1))
+        # SQL: one column name replaced by another column named in the same statement
+        for n in ast.walk(tree):
+            if isinstance(n, ast.Constant) and isinstance(n.value, str) and \
+                    _re5.search(r"\b(SELECT|DELETE|UPDATE|INSERT)\b", n.value) and not in_log(n):
+                a, b = seg(lines, n)
+                src = text[a:b]
+                cols = []
+                for mt in _re5.finditer(r"`?([a-z_]+)`?\s*(=|<|>|!=)\s*\?", n.value):
+                    if mt.group(1) not in cols:
+                        cols.append(mt.group(1))
+                for mt in _re5.finditer(r"`?\b([a-z_]+)`?\s*(=|<|>|!=)\s*\?", src):
+                    for other in cols:
+                        if other != mt.group(1):
+                            ns = src[:mt.start(1)] + other + src[mt.end(1):]
+                            add("sqlcol", n, a, b, ns, "%s -> %s" % (mt.group(1), other))
     # schema / upgrade scripts: drop one line (and variants that keep the
     # statement well-formed by also dropping a trailing comma of the line before)
     sd = os.path.join(REPO, PKG, "db-schemas")
@@ -299,7 +412,7 @@ def suite_one(m):
 
 def suite():
     muts = json.load(open(os.path.join(OUT, "mutants.json")))
-    with ThreadPoolExecutor(14) as ex:
+    with ThreadPoolExecutor(int(os.environ.get("MC_JOBS", "14"))) as ex:
         res = dict(ex.map(suite_one, muts))
     surv = [m for m in muts if res[m["id"]] == "pass"]
     json.dump({"results": res, "survivors": surv},
